@@ -3,6 +3,8 @@ import Cvise.Proofs.PassesBalTerm
 import Cvise.Proofs.PassesTernTerm
 import Cvise.Proofs.DriverTotal
 import Cvise.Proofs.PassesDriver
+import Cvise.Proofs.PassesIntsTerm
+import Cvise.Proofs.PassesCounterTerm
 import Cvise.Props.C06
 import Cvise.Gen.Const
 /-!
@@ -45,6 +47,29 @@ theorem ternary_bound (arg : String) (harg : arg = "b" ∨ arg = "c") (hist : Li
     (hnew : (ternary arg).new s = some st) :
     (runHistory (ternary arg) hist s (some st) []).1.length ≤ 2 * s.length + 2 :=
   P.ternary_bound arg harg hist s st hnew
+
+/-- ints a / b / c and special b / c: at most `|s|² + 4|s| + 3` candidates for **every** accept/reject history (an
+    accepted candidate is strictly shorter, `advance_on_success` recomputes at most `|s'| + 2` modifications) -/
+theorem ints_bound (arg : String) (harg : arg = "a" ∨ arg = "b" ∨ arg = "c") (hist : List Bool) (s : Text) (st : ModSt)
+    (hnew : (modPass (intsEntry arg).1 (intsEntry arg).2).new s = some st) :
+    (runHistory (modPass (intsEntry arg).1 (intsEntry arg).2) hist s (some st) []).1.length ≤ s.length * (s.length + 3) + s.length + 3 :=
+  P.ints_bound arg harg hist s st hnew
+theorem special_bc_bound (arg : String) (harg : arg = "b" ∨ arg = "c") (hist : List Bool) (s : Text) (st : ModSt)
+    (hnew : (modPass (specialEntry arg).1 (specialEntry arg).2).new s = some st) :
+    (runHistory (modPass (specialEntry arg).1 (specialEntry arg).2) hist s (some st) []).1.length ≤ s.length * (s.length + 3) + s.length + 3 :=
+  P.special_bc_bound arg harg hist s st hnew
+
+/-- the counter passes `blank` and `includes` — whose `advance` never ends and which rely on `transform` saying STOP —
+    under **every** accept/reject history: at most `|patterns| + 2` resp. `|s|² + 3|s| + 2` candidates -/
+theorem blank_bound (hist : List Bool) (s : Text) :
+    (runHistory blank hist s (some 0) []).1.length ≤ Gen.blankPatterns.length + 2 := P.blank_bound hist s
+theorem includes_bound (hist : List Bool) (s : Text) :
+    (runHistory includes hist s (some 1) []).1.length ≤ s.length * (s.length + 2) + s.length + 2 := P.includes_bound hist s
+/-- comments under **every** accept/reject history (all-reject: `comments_reject_bound`): an accepted candidate deletes
+    comment text, so at most `(|s| + 1)·(|substitutions| + 2)` candidates -/
+theorem comments_bound (hist : List Bool) (s : Text) :
+    (runHistory comments hist s (some 0) []).1.length ≤ s.length * (Gen.commentsSubs.length + 2) + Gen.commentsSubs.length + 2 :=
+  P.comments_bound hist s
 
 /-- peep: `advance` walks `(pos, regex)` lexicographically and ends at `pos ≥ |s|` -/
 theorem peep_advance_progress (arg : String) (s : Text) (st st' : PeepSt) (h : peepAdvance arg s st = some st') :
